@@ -485,6 +485,8 @@ class StorageRunner:
             elif o == 'hist':
                 h = st.history(p64(int(tk[1])), 1000)
                 r = '[' + ','.join(str(u64(d['tid'])) for d in h) + ']'
+            elif o in ('reopen', 'undo', 'undotxn', 'undomulti') and (self.begun or self.pending):
+                r = 'blocked'       # a transaction is in progress (only the shrinker produces this)
             elif o == 'reopen':
                 self.reopen()
                 r = 'ok'
